@@ -144,15 +144,79 @@ func runProperty(p *Property, tier, only, overlaySpec string, controlMode bool) 
 		parts := strings.SplitN(overlaySpec, "=", 2)
 		c.OverlayFiles = map[string]string{parts[0]: parts[1]}
 	}
-	var err error
-	if p.NeedKernel {
-		if c.K, err = loadModule("kernel", 15, ov); err != nil {
-			return loadFailure(c, p, controlMode, err)
+	load := func(o map[string][]byte) error {
+		var err error
+		if os.Getenv("FFC_DEBUG_INL") != "" {
+			t0 := time.Now()
+			defer func() { fmt.Fprintf(os.Stderr, "load: %d overlay file(s), %v\n", len(o), time.Since(t0)) }()
 		}
+		c.K, c.B = nil, nil
+		if p.NeedKernel {
+			if c.K, err = loadModule("kernel", 15, o); err != nil {
+				return err
+			}
+		}
+		if p.NeedKbuild {
+			if c.B, err = loadModule("kbuild", 2, o); err != nil {
+				return err
+			}
+		}
+		return nil
 	}
-	if p.NeedKbuild {
-		if c.B, err = loadModule("kbuild", 2, ov); err != nil {
-			return loadFailure(c, p, controlMode, err)
+	if err := load(ov); err != nil {
+		return loadFailure(c, p, controlMode, err)
+	}
+	// Dry passes: run the rules, discarding their verdicts, only to learn which
+	// functions they anchor at. Then bring private helpers into single-call-site
+	// form (dup.go, on the analysed text only) and splice every private
+	// single-call-site function into its caller (inl.go). The deciding pass
+	// runs last.
+	if os.Getenv("FFC_NOINLINE") == "" {
+		dryRun := func() {
+			defer func() { recover() }()
+			dry := &Ctx{Prop: p.ID, Tier: tier, K: c.K, B: c.B, OverlayFiles: c.OverlayFiles, floors: map[string]int{}, counts: map[string]int{}}
+			p.Run(dry)
+		}
+		dryRun()
+		merged := map[string][]byte{}
+		for k, v := range ov {
+			merged[k] = v
+		}
+		n := 0
+		anchorNames := map[string]bool{}
+		for _, m := range []*Module{c.K, c.B} {
+			if m != nil {
+				o, k := planDuplication(m, ov)
+				n += k
+				for f, b := range o {
+					merged[f] = b
+				}
+				for fn := range m.anchors {
+					anchorNames[fn.String()] = true
+				}
+			}
+		}
+		if n > 0 {
+			if err := load(merged); err != nil {
+				// the rewritten text must load whenever the original does
+				fmt.Fprintf(os.Stderr, "fireflycheck: internal error: helper duplication produced text that does not load: %v\n", err)
+				return 2
+			}
+			// the anchors of the first load, by name (copies have new names)
+			for _, m := range []*Module{c.K, c.B} {
+				if m != nil {
+					for _, fn := range m.Funcs {
+						if anchorNames[fn.String()] {
+							m.anchor(fn)
+						}
+					}
+				}
+			}
+		}
+		for _, m := range []*Module{c.K, c.B} {
+			if m != nil {
+				m.enableInlining()
+			}
 		}
 	}
 	p.Run(c)
